@@ -676,12 +676,24 @@ func ccRun(s *ccStation, c ccCase) (res ccRes) {
 			} else if err := s.rm.TrackRegistration(obj); err != nil {
 				sr.Note = "error: " + err.Error()
 			}
+		case "track_ine":
+			// the ingest pipeline's entry point (what a registration message received again goes through)
+			if obj == nil {
+				sr.Note = "noobj"
+			} else if _, err := s.rm.TrackRegIfNotExists(obj); err != nil {
+				sr.Note = "error: " + err.Error()
+			}
 		case "validate":
 			if obj == nil {
 				sr.Note = "noobj"
 			} else {
 				s.rm.AddRegistration(obj)
 			}
+		case "age":
+			// st.N seconds pass for everything tracked on the two phantoms of this case (every record's clock is shifted
+			// RELATIVE to where it stands, so whatever earlier operations did to a clock stays visible), then the real sweep
+			s.rm.VerifC02AgePhantoms([]string{phantom.String(), other.String()}, time.Duration(st.N)*time.Second)
+			s.sweep()
 		case "expire":
 			// seven hours pass for whatever is tracked under this object's (phantom, identifier), then the real sweep
 			if obj == nil {
